@@ -237,6 +237,17 @@ Definition even_atom (kind : nat) (s b extra : Qc) : list term :=
 Fixpoint nf_pow (A : list term) (n : nat) : option (list term) :=
   match n with O => Some [t_one] | S m => match nf_pow A m with Some r => nf_mul A r | None => None end end.
 
+(* a purely real exponent whose pi-content leaves the symbolic range (e.g. pi r^2 (x/(2 pi))^2): since real exponents
+   are only ever used at pi := P, the quadratic is recovered from its values at x = 0, 1, -1 and confirmed at x = 2 *)
+Definition real_at (E : env) (e : fn) (x : Qc) : option Qc :=
+  match sce (with_x0 E x) e with Some v => if qc_eqb (im v) 0 then Some (re v) else None | None => None end.
+Definition real_quadratic (E : env) (e : fn) : option (list term) :=
+  match real_at E e 0, real_at E e 1, real_at E e (- (1)), real_at E e (qc 2 1) with
+  | Some v0, Some v1, Some vm, Some v2 =>
+      let c1 := (v1 - vm) / (qc 2 1) in let c2 := (v1 + vm) / (qc 2 1) - v0 in
+      if qc_eqb v2 ((qc 4 1) * c2 + (qc 2 1) * c1 + v0) then Some [T ci1 None lp0 lp0 (c2, c1, v0) []] else None
+  | _, _, _, _ => None end.
+
 (* multiply the terms B (possibly containing deltas) by the expression whose NF at
    point x is given by [fa x]: non-delta terms use the value at the current point,
    delta terms the value at their location (sifting; orders >= 1 need a constant) *)
@@ -306,7 +317,7 @@ Fixpoint nfe (E : env) (e : fn) {struct e} : option (list term) :=
             if lp_is0 (snd k2) then
               Some [T ci1 None (snd k1) (snd k0) (lp_val (e_P E) (fst k2), lp_val (e_P E) (fst k1), lp_val (e_P E) (fst k0)) []]
             else None
-        | None => None end
+        | None => real_quadratic E a end
     | App h a =>
         match real_lin E a with
         | Some (s, b) =>
